@@ -2,6 +2,7 @@
 // through the public API of the real library only.  The library has no operator== for ArtFile: equality is equality of
 // the full structural dump below (fixed field order, every public field, containers with their lengths).
 #include "drv.h"
+#include "Stream/MemoryWriter.h"
 #include "Sprite/ArtFile.h"
 #include "Sprite/SpriteLoader.h"
 #include "Bitmap/Color.h"
@@ -154,6 +155,20 @@ DRV_CMD(prt_wr, "prt.wr") {
   try { w = writeBytes(l.art); } catch (const std::exception&) { ok = false; }
   std::string d1 = dumpText(l.art);
   return std::string(ok ? "ok " : "refused ") + u(d0 == d1) + " " + (ok ? showBytes(w) : std::string("-"));
+}
+
+// prt.wrfail <hex> <capacity> : Write into a fixed buffer of <capacity> bytes (fails when the file does not fit), then
+//   report whether the object is unchanged and what a second, unrestricted Write produces
+//   -> err-load | (ok|failed) <object unchanged 0|1> <bytes of the following full write>
+DRV_CMD(prt_wrfail, "prt.wrfail") {
+  Loaded l = [&] { try { return load(hexDecode(need(a, 0))); } catch (const BadOp&) { throw; } catch (const std::exception&) { throw std::runtime_error("load"); } }();
+  uint64_t cap = toU64(need(a, 1)); if (cap > (1u << 24)) throw BadOp();
+  std::string d0 = dumpText(l.art); bool ok = true;
+  { std::vector<char> buf(cap + 1); Stream::MemoryWriter w(buf.data(), cap);
+    try { l.art.Write(w); } catch (const std::exception&) { ok = false; } }
+  std::string d1 = dumpText(l.art), again;
+  try { again = showBytes(writeBytes(l.art)); } catch (const std::exception&) { again = "refused"; }
+  return std::string(ok ? "ok " : "failed ") + u(d0 == d1) + " " + again;
 }
 
 namespace {
